@@ -381,6 +381,11 @@ inline void on_exit_hook()
 }
 inline void guard_install(unsigned alarm_s = 0)
 {
+	// construct the function-local statics before the exit hook is registered: destructors run in reverse order of
+	// construction / registration, so the hook still finds the intent string alive
+	intent_ref();
+	finished_ref();
+	errfd_ref();
 	signal(SIGABRT, on_signal);
 	signal(SIGSEGV, on_signal);
 	signal(SIGFPE, on_signal);
